@@ -233,6 +233,8 @@ class ArithFunctions(InterpreterFunctions):
         lhs: int
         rhs: int
         (lhs, rhs) = args
+        lhs = to_signed(lhs, _int_bitwidth(interpreter, op.result.type))
+        rhs = to_signed(rhs, _int_bitwidth(interpreter, op.result.type))
         assert rhs != 0
         div = abs(lhs) // abs(rhs)
         if (lhs > 0) != (rhs > 0):
@@ -246,6 +248,8 @@ class ArithFunctions(InterpreterFunctions):
         lhs: int
         rhs: int
         (lhs, rhs) = args
+        lhs = to_signed(lhs, _int_bitwidth(interpreter, op.result.type))
+        rhs = to_signed(rhs, _int_bitwidth(interpreter, op.result.type))
         assert rhs != 0
         div = abs(lhs) // abs(rhs)
         if (lhs > 0) != (rhs > 0):
@@ -259,6 +263,8 @@ class ArithFunctions(InterpreterFunctions):
         lhs: int
         rhs: int
         (lhs, rhs) = args
+        lhs = to_signed(lhs, _int_bitwidth(interpreter, op.result.type))
+        rhs = to_signed(rhs, _int_bitwidth(interpreter, op.result.type))
         assert rhs != 0
         return (lhs // rhs,)
 
